@@ -2,8 +2,9 @@
    Statements only; proofs are in Proofs/LineageProofs.v.  Every theorem is closed by `exact`.
    Model: Model/Lineage.v (resolve_cut = the cut arithmetic of ContinuityStore::branch/handoff,
    branch_view / handoff_gen = the operations on the truth log, sequentially; `view` = what
-   replay_events(parent) returned; handoff_gen false = the code as found, handoff_gen true = the
-   code after the repair that tests a caller-given summary_artifact_id for existence). *)
+   replay_events(parent) returned; handoff_gen chk bf: chk = a caller-given summary_artifact_id is
+   tested for existence, bf = the bundle is written before the child is created; (false,false) = the
+   code as found (handoff_unfixed), (true,true) = the repaired code (handoff_view)). *)
 From RipV Require Import Base.Prelude Model.Frames Model.Log Proofs.LogProofs Model.Lineage Proofs.LineageProofs.
 
 (* ---- no frame is added to the source thread - or to any stream other than the fresh child's -
@@ -12,8 +13,8 @@ Theorem c10_parent_untouched : forall (view : list frame) (l : log) (arts : asto
     (sel : selector) (fr : fresh) (t : N),
   t <> f_child fr ->
   cstream t (fst (branch_view view l parent sel fr)) = cstream t l
-  /\ forall chk md art bok,
-     cstream t (fst (fst (handoff_gen chk view l arts parent sel md art bok fr))) = cstream t l.
+  /\ forall chk bf md art bok,
+     cstream t (fst (fst (handoff_gen chk bf view l arts parent sel md art bok fr))) = cstream t l.
 Proof. exact parent_untouched. Qed.
 Print Assumptions c10_parent_untouched.
 
@@ -23,15 +24,15 @@ Theorem c10_other_streams_untouched_branch : forall view l parent sel fr k s,
 Proof. exact branch_other_streams_untouched. Qed.
 Print Assumptions c10_other_streams_untouched_branch.
 
-Theorem c10_other_streams_untouched_handoff : forall chk view l arts parent sel md art bok fr k s,
+Theorem c10_other_streams_untouched_handoff : forall chk bf view l arts parent sel md art bok fr k s,
   (k, s) <> (KContinuity, f_child fr) ->
-  stream k s (fst (fst (handoff_gen chk view l arts parent sel md art bok fr))) = stream k s l.
+  stream k s (fst (fst (handoff_gen chk bf view l arts parent sel md art bok fr))) = stream k s l.
 Proof. exact handoff_other_streams_untouched. Qed.
 Print Assumptions c10_other_streams_untouched_handoff.
 
 Theorem c10_log_prefix : forall view l arts parent sel fr,
   (exists ext, fst (branch_view view l parent sel fr) = l ++ ext)
-  /\ forall chk md art bok, exists ext, fst (fst (handoff_gen chk view l arts parent sel md art bok fr)) = l ++ ext.
+  /\ forall chk bf md art bok, exists ext, fst (fst (handoff_gen chk bf view l arts parent sel md art bok fr)) = l ++ ext.
 Proof. exact log_prefix. Qed.
 Print Assumptions c10_log_prefix.
 
@@ -44,9 +45,9 @@ Theorem c10_child_prefix_branch : forall view l parent sel fr l' c cut om,
 Proof. exact branch_child_prefix. Qed.
 Print Assumptions c10_child_prefix_branch.
 
-Theorem c10_child_prefix_handoff : forall chk view l arts parent sel md art bok fr l' arts' c cut om,
+Theorem c10_child_prefix_handoff : forall chk bf view l arts parent sel md art bok fr l' arts' c cut om,
   cstream (f_child fr) l = [] ->
-  handoff_gen chk view l arts parent sel md art bok fr = (l', arts', Ok (c, cut, om)) ->
+  handoff_gen chk bf view l arts parent sel md art bok fr = (l', arts', Ok (c, cut, om)) ->
   c = f_child fr /\ resolve_cut sel view = Ok (cut, om)
   /\ exists a, cstream c l' = [created_frame c (f_e0 fr); handoff_frame c (f_e1 fr) parent cut om (Some a) md]
      /\ ((art = Some a /\ arts' = arts /\ (chk = true -> art_has a arts' = true))
@@ -60,9 +61,9 @@ Theorem c10_valid_preserved_branch : forall view l parent sel fr,
 Proof. exact branch_valid_preserved. Qed.
 Print Assumptions c10_valid_preserved_branch.
 
-Theorem c10_valid_preserved_handoff : forall chk view l arts parent sel md art bok fr,
+Theorem c10_valid_preserved_handoff : forall chk bf view l arts parent sel md art bok fr,
   Valid l -> cstream (f_child fr) l = [] ->
-  Valid (fst (fst (handoff_gen chk view l arts parent sel md art bok fr))).
+  Valid (fst (fst (handoff_gen chk bf view l arts parent sel md art bok fr))).
 Proof. exact handoff_valid_preserved. Qed.
 Print Assumptions c10_valid_preserved_handoff.
 
@@ -152,39 +153,60 @@ Theorem c10_branch_error_writes_nothing : forall view l parent sel fr l' e,
 Proof. exact branch_err_unchanged. Qed.
 Print Assumptions c10_branch_error_writes_nothing.
 
-(* ... except a handoff whose bundle write fails after the child was created (environment fault;
-   the child then has a creation frame and no lineage record) *)
-Theorem c10_handoff_error_writes_nothing_unless_bundle_fails :
-  forall chk view l arts parent sel md art bok fr l' arts' e,
-  handoff_gen chk view l arts parent sel md art bok fr = (l', arts', Err e) ->
-  arts' = arts /\ (e <> EBundle -> l' = l)
-  /\ (e = EBundle -> md = true /\ art = None /\ bok = false
-                     /\ l' = l ++ [created_frame (f_child fr) (f_e0 fr)]).
-Proof. exact handoff_err_unchanged. Qed.
-Print Assumptions c10_handoff_error_writes_nothing_unless_bundle_fails.
+(* the repaired handoff as well, whatever fails (selector, summary, unknown artifact, artifact store) *)
+Theorem c10_handoff_error_writes_nothing : forall chk view l arts parent sel md art bok fr l' arts' e,
+  handoff_gen chk true view l arts parent sel md art bok fr = (l', arts', Err e) -> l' = l /\ arts' = arts.
+Proof. exact handoff_fixed_err_unchanged. Qed.
+Print Assumptions c10_handoff_error_writes_nothing.
 
-(* ---- a handoff carries a summary ---- *)
-Theorem c10_handoff_without_summary_rejected : forall chk view l arts parent sel bok fr,
-  handoff_gen chk view l arts parent sel false None bok fr = (l, arts, Err ENoSummary).
+(* all variants: the only failing call that can write is the as-found one whose bundle write fails after the
+   child was created (the child then has a creation frame and no lineage record) *)
+Theorem c10_handoff_error_writes_nothing_unless_bundle_fails_late :
+  forall chk bf view l arts parent sel md art bok fr l' arts' e,
+  handoff_gen chk bf view l arts parent sel md art bok fr = (l', arts', Err e) ->
+  arts' = arts /\ (e <> EBundle \/ bf = true -> l' = l)
+  /\ (e = EBundle -> md = true /\ art = None /\ bok = false
+                     /\ l' = if bf then l else l ++ [created_frame (f_child fr) (f_e0 fr)]).
+Proof. exact handoff_err_unchanged. Qed.
+Print Assumptions c10_handoff_error_writes_nothing_unless_bundle_fails_late.
+
+Theorem c10_handoff_orphan_child_unfixed_refuted :
+  exists l arts parent sel md art bok fr l' arts' e,
+    handoff_op_unfixed l arts parent sel md art bok fr = (l', arts', Err e) /\ l' <> l
+    /\ cstream (f_child fr) l = [] /\ cstream (f_child fr) l' = [created_frame (f_child fr) (f_e0 fr)].
+Proof. exact handoff_orphan_child_unfixed_refuted. Qed.
+Print Assumptions c10_handoff_orphan_child_unfixed_refuted.
+
+(* ---- a handoff always carries a resolvable summary ---- *)
+Theorem c10_handoff_without_summary_rejected : forall chk bf view l arts parent sel bok fr,
+  handoff_gen chk bf view l arts parent sel false None bok fr = (l, arts, Err ENoSummary).
 Proof. exact handoff_no_summary. Qed.
 Print Assumptions c10_handoff_without_summary_rejected.
 
-(* markdown only: the bundle is in the store when the frame is written and names the recorded cut *)
-Theorem c10_handoff_bundle_matches : forall chk view l arts parent sel bok fr l' arts' c cut om,
-  handoff_gen chk view l arts parent sel true None bok fr = (l', arts', Ok (c, cut, om)) ->
+(* repaired code: the recorded summary_artifact_id is in the artifact store when the lineage frame is written,
+   for every accepted summary class; when ripd wrote it, it names the recorded cut *)
+Theorem c10_handoff_has_summary : forall bf view l arts parent sel md art bok fr l' arts' c cut om,
+  handoff_gen true bf view l arts parent sel md art bok fr = (l', arts', Ok (c, cut, om)) ->
+  exists a, l' = l ++ [created_frame c (f_e0 fr); handoff_frame c (f_e1 fr) parent cut om (Some a) md]
+    /\ art_has a arts' = true /\ (art = None -> md = true /\ art_get a arts' = Some [parent; cut; opt om]).
+Proof. exact handoff_summary_resolvable. Qed.
+Print Assumptions c10_handoff_has_summary.
+
+Theorem c10_handoff_bundle_matches : forall chk bf view l arts parent sel bok fr l' arts' c cut om,
+  handoff_gen chk bf view l arts parent sel true None bok fr = (l', arts', Ok (c, cut, om)) ->
   art_get (f_art fr) arts' = Some [parent; cut; opt om]
   /\ l' = l ++ [created_frame c (f_e0 fr); handoff_frame c (f_e1 fr) parent cut om (Some (f_art fr)) true].
 Proof. exact handoff_bundle_matches. Qed.
 Print Assumptions c10_handoff_bundle_matches.
 
-(* the code as found records a caller-given artifact id without looking it up *)
-Theorem c10_handoff_unchecked_artifact_refuted :
+(* the code as found recorded a caller-given artifact id without looking it up *)
+Theorem c10_handoff_unchecked_artifact_unfixed_refuted :
   exists l arts parent sel a fr l' arts' r,
-    handoff_op l arts parent sel false (Some a) true fr = (l', arts', Ok r)
+    handoff_op_unfixed l arts parent sel false (Some a) true fr = (l', arts', Ok r)
     /\ art_has a arts' = false
     /\ exists c e cut om, In (handoff_frame c e parent cut om (Some a) false) l'.
 Proof. exact handoff_unchecked_artifact_refuted. Qed.
-Print Assumptions c10_handoff_unchecked_artifact_refuted.
+Print Assumptions c10_handoff_unchecked_artifact_unfixed_refuted.
 
 (* ---- non-vacuity ---- *)
 Example c10_demo_hypotheses :
@@ -215,5 +237,6 @@ Example c10_demo_handoff :
      [(30, [0; 6; 16])], Ok (1, 6, Some 15)).
 Proof. exact demo_handoff. Qed.
 
-Example c10_demo_orphan : orphan_result = (demo_log ++ [created_frame 1 20], [], Err EBundle).
-Proof. exact orphan_eq. Qed.
+Example c10_demo_repaired :
+  dangling_fixed = (demo_log, [], Err ENoArtifact) /\ orphan_fixed = (demo_log, [], Err EBundle).
+Proof. exact fixed_eq. Qed.
